@@ -20,6 +20,9 @@ func init() {
 			{ID: "C20.R5", Floor: 2, Run: c20r5, Text: "Get returns and Has tests the slot resources[id.id] of the same id parameter"},
 			{ID: "C20.R6", Floor: 1, Run: c20r6, Text: "reset clears every slot (= C15.R5 for Resources)"},
 			{ID: "C20.R7", Floor: 1, Run: c20r7, Text: "resource ids survive Reset (= C15.R1 keep rule): World.Reset's mod-set does not contain Resources.registry"},
+			{ID: "C20.R8", Floor: 2, Run: typeParamReflection, Text: "reflection of type parameters: reflect.TypeOf is never applied to a value of bare type-parameter type (nil for interface type arguments, so distinct types collapse into one registry key); the idiom reflect.TypeOf((*T)(nil)).Elem() is followed by Elem()"},
+			{ID: "C20.R9", Floor: 10, Run: mapperStateless, Text: "the resource mapper holds no copy of the resource pointer (= C18.R12): Get returns the world's current pointer after removal or replacement through any route"},
+			{ID: "C20.R10", Floor: 4, Run: mapperDelegates, Text: "delegation (= C18.R13)"},
 		},
 	})
 }
